@@ -17,21 +17,27 @@ Definition s_y_spaced : str := [32;121;32].                         (* " y "   *
 Definition s_ky : str := [50;107;42;121].                           (* 2k*y    *)
 Definition s_xf : str := [120;40;102;41;43;50;107;42;120].          (* x(f)+2k*x : x is a function AND a variable *)
 
+Definition s_deep : str := [113;43;50;107;42;40;40;49;41;41].          (* q+2k*((1)) standing for hundreds of bracket levels *)
+(* the engine gives up on exactly this string *)
+Definition engine_deep (k : str) : bool := str_eqb k s_deep.
+
 Definition env_xy : env :=
   mkEnv (assoc [([120], VS (mkC 2 0)); ([121], VS (mkC 3 0))]) (fun _ => None) (assoc [([107], 1000%Q)]).
 
 Definition history : list op :=
-  [OParse s_bad_args; OParse s_bad_tail; OParse s_bad_open; OParse s_y_spaced; OParse s_y;
-   OEval env_xy None (Some s_ky); OParse s_ky; OEval env_xy None (Some s_xf)].
+  [OParse s_bad_args; OParse s_bad_tail; OParse s_bad_open; OParse s_deep; OParse s_y_spaced; OParse s_y;
+   OEval env_xy None (Some s_deep); OEval env_xy None (Some s_ky); OParse s_ky; OEval env_xy None (Some s_xf)].
 
-(* three malformed strings first (callbacks fire for x and f inside "f(x,)" and junk is recorded), then
+(* three malformed strings and one on which the engine gives up first (callbacks fire for x and f inside
+   "f(x,)" and junk is recorded), then
    valid ones: nothing leaks, the cached "y" is served for " y ", evaluation sees the same names *)
 Lemma ex_history_trace :
-  trace junk_q faithful init history =
+  trace junk_q engine_deep faithful init history =
   [ VP (VErr (EUnparse s_bad_args)); VP (VErr (EUnparse s_bad_tail));
-    VP (VErr (EUnbal OpenWithoutClose s_bad_open));
+    VP (VErr (EUnbal OpenWithoutClose s_bad_open)); VP (VErr EEngine);
     VP (VTree (Var [121]) (mkNames [[121]] [] []));
     VP (VTree (Var [121]) (mkNames [[121]] [] []));
+    VE (EvPErr EEngine);
     VE (EvVal (VS (mkC 6000 0)) (mkNames [[121]] [] [[107]]) 0);
     VP (VTree (Prod (Num [50] (Some [107])) [(OpMul, Var [121])]) (mkNames [[121]] [] [[107]]));
     VE (EvErr EUndefVar) ].
@@ -39,26 +45,38 @@ Proof. vm_compute. reflexivity. Qed.
 
 (* the junk really was recorded -- into cells that were then abandoned *)
 Lemma ex_history_heap :
-  cell (run junk_q faithful init history) 0 = mkNames [[120]; [102]; [113]] [[113]] [[113]] /\
-  scratch (run junk_q faithful init history) = no_names /\
-  map fst (cache (run junk_q faithful init history)) = [s_y; s_ky; s_xf].
+  cell (run junk_q engine_deep faithful init history) 0 = mkNames [[120]; [102]; [113]] [[113]] [[113]] /\
+  scratch (run junk_q engine_deep faithful init history) = no_names /\
+  map fst (cache (run junk_q engine_deep faithful init history)) = [s_y; s_ky; s_xf].
 Proof. vm_compute. repeat split. Qed.
 
 (* without `finally` (reset only after a successful parse) the next successful parse inherits what the
    failed one recorded: the outcome for "y" depends on the history *)
-Definition no_finally : policy := mkPolicy false true.
+Definition no_finally : policy := mkPolicy false true false.
 Lemma ex_without_finally :
-  snd (step junk_q no_finally (run junk_q no_finally init [OParse s_bad_args]) (OParse s_y))
+  snd (step junk_q engine_deep no_finally (run junk_q engine_deep no_finally init [OParse s_bad_args]) (OParse s_y))
     = VP (VTree (Var [121]) (mkNames [[120]; [102]; [113]; [121]] [[113]] [[113]])) /\
-  snd (step junk_q no_finally init (OParse s_y)) = VP (VTree (Var [121]) (mkNames [[121]] [] [])).
+  snd (step junk_q engine_deep no_finally init (OParse s_y)) = VP (VTree (Var [121]) (mkNames [[121]] [] [])).
 Proof. vm_compute. split; reflexivity. Qed.
 
 (* with .clear() instead of new sets the MathExpression's own collections are emptied by the reset:
    nothing is reported for "y" *)
-Definition clearing : policy := mkPolicy true false.
+Definition clearing : policy := mkPolicy true false true.
 Lemma ex_with_clear :
-  snd (step junk_q clearing init (OParse s_y)) = VP (VTree (Var [121]) no_names).
+  snd (step junk_q engine_deep clearing init (OParse s_y)) = VP (VTree (Var [121]) no_names).
 Proof. vm_compute. reflexivity. Qed.
+
+(* resetting after parse-class errors only (`except (ParseException, UnableToParse)` instead of `finally`):
+   when the engine gives up with another exception the scratch keeps what was recorded, and the next string
+   that is not yet cached inherits it *)
+Definition parse_errors_only : policy := mkPolicy true true false.
+Lemma ex_engine_failure_leaks :
+  snd (step junk_q engine_deep parse_errors_only (run junk_q engine_deep parse_errors_only init [OParse s_deep]) (OParse s_y))
+    = VP (VTree (Var [121]) (mkNames [[113]; [121]] [[113]] [[113]])) /\
+  snd (step junk_q engine_deep parse_errors_only init (OParse s_y)) = VP (VTree (Var [121]) (mkNames [[121]] [] [])) /\
+  snd (step junk_q engine_deep faithful (run junk_q engine_deep faithful init [OParse s_deep]) (OParse s_y))
+    = VP (VTree (Var [121]) (mkNames [[121]] [] [])).
+Proof. vm_compute. repeat split. Qed.
 
 (* a derivation in which the same name is a function head and a variable, and a suffix sits next to a name *)
 Definition e_xf : expr := EAdd (EApp [120] [EVar [102]]) (EMul (ENum [50] (Some [107])) (EVar [120])).
@@ -68,11 +86,11 @@ Lemma ex_names_hyps :
 Proof. vm_compute. repeat split. Qed.
 
 Lemma ex_names_after_history : exists l,
-  snd (step junk_q faithful (run junk_q faithful init history) (OParse s_xf)) = VP (VTree (flatten e_xf) l) /\
+  snd (step junk_q engine_deep faithful (run junk_q engine_deep faithful init history) (OParse s_xf)) = VP (VTree (flatten e_xf) l) /\
   nperm l (mkNames [[102]; [120]] [[120]] [[107]]).
 Proof.
   destruct ex_names_hyps as (W & L & N). rewrite <- N.
-  apply names_exact_string; assumption.
+  apply names_exact_string; try assumption. reflexivity.
 Qed.
 
 (* ---------- an explicit rendering with white space: the hypotheses of names_exact_rendering hold ---------- *)
@@ -100,12 +118,12 @@ Proof.
 Qed.
 
 Lemma ex_rendering_names : exists l,
-  snd (step junk_q faithful (run junk_q faithful init history) (OParse s_xf_ws)) = VP (VTree (flatten e_xf) l) /\
+  snd (step junk_q engine_deep faithful (run junk_q engine_deep faithful init history) (OParse s_xf_ws)) = VP (VTree (flatten e_xf) l) /\
   nperm l (mkNames [[102]; [120]] [[120]] [[107]]).
 Proof.
   destruct ex_rendering_hyps as (W & V & S & E).
   destruct ex_names_hyps as (_ & _ & N). rewrite <- N.
-  apply (names_exact_rendering junk_q history e_xf seps_xf s_xf_ws W V S E).
+  apply (names_exact_rendering junk_q engine_deep history e_xf seps_xf s_xf_ws eq_refl W V S E).
 Qed.
 
 Lemma ex_scan : scan_names (render e_xf) = mkNames [[102]; [120]] [[120]] [[107]].
